@@ -2,7 +2,8 @@
 C03 — no operation is lost, duplicated or left stranded.
 -/
 import DesyncModel.Spec
-import DesyncModel.Tables
+import DesyncModel.Tables.Push
+import DesyncModel.Tables.Pool
 
 namespace Desync.C03
 open Desync Gen
